@@ -799,17 +799,38 @@ async def op_scope(env, ctx, step):
     body_exc = outer_exc = None
     try:
         try:
-            async with scope:
-                for child in step.get('children', ()):
-                    spawn(env, ctx, scope, key, child)
+            if step.get('manual'):
+                # the context-manager protocol driven by hand, as contextlib.AsyncExitStack
+                # does: __aexit__ is called with the exception as an argument, *outside* of
+                # any `except` block (no exception is "currently being handled")
+                env.sess.stats['manual_blocks'] += 1
+                await scope.__aenter__()
                 try:
+                    for child in step.get('children', ()):
+                        spawn(env, ctx, scope, key, child)
                     await run_steps(env, ctx, step['body'])
                 except BaseException as exc:  # noqa: B902
                     body_exc = exc
                     info['body'] = (env.sess.now(), type(exc).__name__)
-                    raise
-                env.log(ctx.name, 'body-done', sid)
-                info['body_done'] = True
+                if body_exc is None:
+                    env.log(ctx.name, 'body-done', sid)
+                    info['body_done'] = True
+                    await scope.__aexit__(None, None, None)
+                elif not await scope.__aexit__(type(body_exc), body_exc,
+                                               body_exc.__traceback__):
+                    raise body_exc
+            else:
+                async with scope:
+                    for child in step.get('children', ()):
+                        spawn(env, ctx, scope, key, child)
+                    try:
+                        await run_steps(env, ctx, step['body'])
+                    except BaseException as exc:  # noqa: B902
+                        body_exc = exc
+                        info['body'] = (env.sess.now(), type(exc).__name__)
+                        raise
+                    env.log(ctx.name, 'body-done', sid)
+                    info['body_done'] = True
         except BaseException as exc:  # noqa: B902
             outer_exc = exc
             raise
@@ -1298,8 +1319,10 @@ class LifecycleMonitor:
                 if status in ('CREATED', 'RUNNING') and not task.done:
                     # not done yet is fine only for a payload with an asynchronous clean-up -
                     # but then the cancellation must have been raised in it in this time step
+                    # (an exit handler the signal passes through may replace it - a scope whose
+                    # child failed with KeyboardInterrupt raises that instead: any exception
+                    # raised in the task in this time step after the call counts as delivery)
                     seen = any(event[1] == name and event[2] == 'exc' and event[0] == when
-                               and event[-1] == 'CancelTask'
                                for event in sess.events[position:])
                     if seen:
                         sess.stats['c06_cancel_seen_cleanup_pending'] += 1
